@@ -44,44 +44,36 @@ theorem lookup_correct_aux (net : Net) (hs : Stable net) :
     have hpM := hs.lt p hpm
     have hsM := hs.lt s hsm
     by_cases c1 : between p key n true = true
-    · refine ⟨1, n, ?_, hn, ?_⟩
-      · rw [findSucc_succ]; simp only [hg, hc, hp, c1]; simp
-      · intro m hm
+    · refine ⟨1, n, findSucc_pred net 0 n key nd hg hc (by simp [inPredRange, hp, c1]), hn, ?_⟩
+      intro m hm
+      have hmM := hs.lt m hm
+      have := hpmin m hm
+      rw [between_closed_iff p key n hpM hk hnM] at c1
+      have := dist_cases p key hpM hk; have := dist_cases p n hpM hnM
+      have := dist_cases p m hpM hmM; have := dist_cases key n hk hnM
+      have := dist_cases key m hk hmM; have := M_val
+      omega
+    · have hpr : inPredRange nd.pred key n = false := by simp [inPredRange, hp, c1]
+      by_cases c2 : between n key s true = true
+      · refine ⟨1, s, findSucc_succ_found net 0 n key s nd hg hc hpr hsu c2, hsm, ?_⟩
+        intro m hm
         have hmM := hs.lt m hm
-        have := hpmin m hm
-        rw [between_closed_iff p key n hpM hk hnM] at c1
-        have := dist_cases p key hpM hk; have := dist_cases p n hpM hnM
-        have := dist_cases p m hpM hmM; have := dist_cases key n hk hnM
+        have := hsmin m hm
+        rw [between_closed_iff n key s hnM hk hsM] at c2
+        have := dist_cases n key hnM hk; have := dist_cases n s hnM hsM
+        have := dist_cases n m hnM hmM; have := dist_cases key s hk hsM
         have := dist_cases key m hk hmM; have := M_val
         omega
-    · by_cases c2 : between n key s true = true
-      · refine ⟨1, s, ?_, hsm, ?_⟩
-        · rw [findSucc_succ]; simp only [hg, hc, hp, c1, hsu, c2]; simp
-        · intro m hm
-          have hmM := hs.lt m hm
-          have := hsmin m hm
-          rw [between_closed_iff n key s hnM hk hsM] at c2
-          have := dist_cases n key hnM hk; have := dist_cases n s hnM hsM
-          have := dist_cases n m hnM hmM; have := dist_cases key s hk hsM
-          have := dist_cases key m hk hmM; have := M_val
-          omega
       · -- forwarding hop to a member strictly closer to the key
-        have hhop : ∀ c, c = (if (closestPreceding n key nd.fingers == n) = true then s
-              else closestPreceding n key nd.fingers) → Mem net c ∧ cw key c < cw key n := by
-          intro c hcdef
-          by_cases e : (closestPreceding n key nd.fingers == n) = true
-          · rw [if_pos e] at hcdef; subst hcdef
-            exact ⟨hsm, cw_lt_of_not_between_closed n c key hnM hsM hk c2⟩
-          · rw [if_neg e] at hcdef; subst hcdef
-            rcases closestPreceding_cases n key nd.fingers with h | ⟨hm, hb⟩
-            · exfalso; apply e; simp [h]
-            · have hfm := hs.fingers n nd hg hc _ hm
-              exact ⟨hfm, cw_lt_of_between_open n _ key hnM (hs.lt _ hfm) hk hb⟩
-        obtain ⟨hcm, hlt⟩ := hhop _ rfl
+        have c2' : between n key s true = false := by simpa using c2
+        have hfM : ∀ f, some f ∈ nd.fingers → f < M := fun f hf => hs.lt f (hs.fingers n nd hg hc f hf)
+        obtain ⟨_, hlt⟩ := hop_decreases n key s nd.fingers hnM hk hsM hfM c2'
+        have hcm : Mem net (hop n key s nd.fingers) := by
+          rcases hop_cases n key s nd.fingers with h | ⟨hm, _⟩
+          · rw [h]; exact hsm
+          · exact hs.fingers n nd hg hc _ hm
         obtain ⟨fuel, o, hres, ho⟩ := ih _ (by rw [← hd]; exact hlt) _ key rfl hcm hk
-        refine ⟨fuel + 1, o, ?_, ho⟩
-        rw [findSucc_succ]; simp only [hg, hc, hp, c1, hsu, c2]
-        exact hres
+        exact ⟨fuel + 1, o, by rw [findSucc_hop net fuel n key s nd hg hc hpr hsu c2']; exact hres, ho⟩
 
 /-- **C01.** On a stable ring, a lookup from any member for any identifier returns the owner. -/
 theorem lookup_correct (net : Net) (hs : Stable net) (n key : Nat) (hn : Mem net n) (hk : key < M) :
